@@ -81,6 +81,10 @@ func (mr *MultiReaderCloser) writeToWithBuffer(w io.Writer, buf []byte) (sum int
 			mr.readers = mr.readers[i:] // permit resume / retry after error
 			return sum, err
 		}
+		// The reader has been fully consumed: close it, as Read does on EOF
+		if rc, ok := r.(io.Closer); ok {
+			_ = rc.Close()
+		}
 		mr.readers[i] = nil // permit early GC
 	}
 	mr.readers = nil
